@@ -134,6 +134,9 @@ PROPS = {
         gen=dict(
             quick=[dict(consts=C(NSet={4}, Heights={1, 2}, NrowSet={3, 5}, Strategies=S3, LevelSet={1}, HdrSet={"default", "explicit"},
                                  FootSet={"none", "table"}, NewPageSet=NP, PbRowSet=PR, PlaceSet={"all"}, DivSet={"none", "resume"})),
+                   # table-style footnote and source with every pair of placements, tables that just fit one page
+                   dict(consts=C(NSet={3, 4, 5}, Heights={1}, NrowSet={6, 7}, Strategies={"plain"}, HdrSet={"explicit"}, FootSet={"table"},
+                                 SrcSet={"table"}, PlaceSet=PL3)),
                    dict(consts=C(NSet={0, 1, 7, 12, 20}, Heights={1, 2, 3, 4, 6}, NrowSet={1, 2, 5, 8, 13, 21}, Strategies=ALL_STRAT,
                                  LevelSet={1, 2, 3}, HdrSet={"none", "default", "explicit", "explicit2"}, FootSet=FS3,
                                  SrcSet=FS3, NewPageSet=NP, PbRowSet=PR, PlaceSet=PL3, FontSet={1, 4, 6, 9}, SizeSet={6, 9, 12, 18, 24},
@@ -204,14 +207,18 @@ PROPS = {
                               PlaceSet=PL3, TitleSet={True}, SublineSet=NP, PbHdrSet=NP),
                    inv=["M_C06_Order", "M_C06_Placement", "M_C06_ColHdr"]),
         gen=dict(
-            quick=[dict(consts=C(NSet={1, 3}, Heights={1}, NrowSet={3, 20}, Strategies={"plain"}, HdrSet={"none", "default"},
+            quick=[dict(consts=C(NSet={0, 1, 3}, Heights={1}, NrowSet={3, 20}, Strategies={"plain"}, HdrSet={"none", "default"},
                                  FootSet={"none", "table"}, SrcSet={"none", "para"}, PlaceSet=PL3, TitleSet={True}, SublineSet={True}, PbHdrSet=NP)),
-                   dict(consts=C(NSet={1, 5, 8}, Heights={1}, NrowSet={3, 4, 6, 20}, Strategies=S3, HdrSet={"none", "default", "explicit2"},
+                   dict(consts=C(NSet={0}, Heights={1}, NrowSet={3}, Strategies=S3, HdrSet={"none", "default"}, FootSet=FS3, SrcSet=FS3, PlaceSet=PL3,
+                                 TitleSet={True}, SublineSet={True})),
+                   dict(consts=C(NSet={0, 1, 5, 8}, Heights={1}, NrowSet={3, 4, 6, 20}, Strategies=S3, HdrSet={"none", "default", "explicit2"},
                                  FootSet=FS3, SrcSet=FS3, PlaceSet=PL3, TitleSet=NP, SublineSet=NP, PbHdrSet=NP,
                                  PaperSet={"letter", "letterm", "landscape", "a4", "a4land", "custom"}, PgHFSet={0, 1, 2, 3}), simulate=1200)],
             thorough=[dict(consts=C(NSet={1, 5}, Heights={1}, NrowSet={3, 4, 20}, Strategies=S3, HdrSet={"none", "default"}, FootSet=FS3, SrcSet=FS3,
                                     PlaceSet=PL3, TitleSet={True}, SublineSet={True}, PbHdrSet=NP)),
-                      dict(consts=C(NSet={1, 5, 12}, Heights={1, 2}, NrowSet={3, 4, 6, 20}, Strategies=ALL_STRAT,
+                      dict(consts=C(NSet={0}, Heights={1}, NrowSet={3}, Strategies=S3, HdrSet={"none", "default"}, FootSet=FS3, SrcSet=FS3, PlaceSet=PL3,
+                                    TitleSet={True}, SublineSet={True})),
+                      dict(consts=C(NSet={0, 1, 5, 12}, Heights={1, 2}, NrowSet={3, 4, 6, 20}, Strategies=ALL_STRAT,
                                     HdrSet={"none", "default", "explicit", "explicit2"}, FootSet=FS3, SrcSet=FS3, PlaceSet=PL3, TitleSet=NP,
                                     SublineSet=NP, PbHdrSet=NP, PaperSet={"letter", "letterm", "landscape", "a4", "a4land", "custom"},
                                     PgHFSet={0, 1, 2, 3}), simulate=12000)]),
